@@ -50,6 +50,8 @@ def coded(flags_per_window, W, sw, ch, tail=0, tail_flag=False):
             for c in range(ch):
                 if sw == 1:
                     v = (100 + (idx + c) % 27) if f else ((idx + c) % 3)
+                elif sw == 4:
+                    v = (2 ** 31 - 1 - (idx * 3 + c) % 9000) if f else ((idx + c) % 5)  # full scale: sums of squares beyond 2^63
                 else:
                     v = (20000 + (idx * 3 + c) % 9000) if f else ((idx + c) % 5)
                 if (idx + c) % 2 and f:
@@ -108,6 +110,18 @@ def c05_case(sw, ch, rate, W, aw, flags, tail, tail_flag, mn, mx, ms, mode, as_r
         if as_region == 2:
             # a region that itself carries a start time (e.g. one yielded by an earlier split)
             regs = list(L["core"].split(L["AR"](data, rate, sw, ch, 2.5), **kw))
+        elif as_region in (3, 4, 5):
+            # standard input: everything available at once, or trickling in pieces that ignore window boundaries
+            # (5: through a real pipe, i.e. a stdin that has a file descriptor)
+            old = sys.stdin
+            chunks = [max(1, W * bps - 1), 2]
+            sys.stdin = PipeStdin(data, chunks) if as_region == 5 else FakeStdin(data, chunks if as_region == 3 else None)
+            try:
+                regs = list(L["core"].split("-", sr=rate, sw=sw, ch=ch, **kw))
+            finally:
+                if as_region == 5:
+                    sys.stdin.close()
+                sys.stdin = old
         elif as_region:
             regs = list(L["AR"](data, rate, sw, ch).split(**kw))
         else:
@@ -154,7 +168,8 @@ def c05_work(task):
                     if tail and (i + stripe) % 3:
                         continue  # partial last windows: every third tuple (all tuples get every tail over the patterns)
                     cov["evaluations"] += 1
-                    msg = c05_case(sw, ch, rate, W, aw, flags, tail, tf, mn, mx, ms, mode, as_region=i % 3)
+                    how = 5 if i % 40 == 7 else i % 5
+                    msg = c05_case(sw, ch, rate, W, aw, flags, tail, tf, mn, mx, ms, mode, as_region=how)
                     if any(flags) or tf:
                         cov["distinct_nontrivial"] += 1
                     if msg and len(viol) < 8:
@@ -162,7 +177,7 @@ def c05_work(task):
                             sw, ch, rate, W, aw, tm.show(flags), tail, "A" if tf else "a", mn, mx, ms, mode)
                         viol.append((key, msg, {"kind": "c05", "sw": sw, "ch": ch, "rate": rate, "W": W, "aw": str(aw),
                                                 "flags": tm.show(flags), "tail": tail, "tail_flag": tf,
-                                                "tuple": [mn, mx, ms, mode], "as_region": i % 3}))
+                                                "tuple": [mn, mx, ms, mode], "as_region": how}))
     cov["samples"].append({"sw": sw, "ch": ch, "samples_per_window": W, "rate": rate, "analysis_window": str(aw),
                            "patterns": "all <=%d windows + partial tails" % L})
     return {"cov": cov, "viol": viol}
@@ -304,7 +319,26 @@ def probe_flags(mn, mx, ms):
     return f
 
 
-PROBE_MODES = (0, 4, 8, 9)  # main probe with trailing silence kept / dropped, two end-of-stream bursts
+PROBE_MODES = (0, 4, 8, 9, 10)  # main probe with trailing silence kept / dropped, end-of-stream bursts (10: short last window)
+
+
+def c06_variant(*parts):
+    """Which way the non-reader input is given (0: split(bytes), 1: AudioRegion.split, 2: trickling standard input)."""
+    return sum(len(str(p)) + sum(map(ord, str(p)[-2:])) for p in parts) % 3
+
+
+def c06_split(data, rate, w_arg, kw, variant):
+    L = lib()
+    if variant == 1:
+        return list(L["AR"](data, rate, 1, 1).split(analysis_window=w_arg, **kw))
+    if variant == 2:
+        old = sys.stdin
+        sys.stdin = FakeStdin(data, [max(1, int(w_arg * rate) - 1), 3])
+        try:
+            return list(L["core"].split("-", sr=rate, sw=1, ch=1, analysis_window=w_arg, **kw))
+        finally:
+            sys.stdin = old
+    return list(L["core"].split(data, sr=rate, sw=1, ch=1, analysis_window=w_arg, **kw))
 
 
 def probe_for(mn, mx, ms, mode):
@@ -312,7 +346,7 @@ def probe_for(mn, mx, ms, mode):
     mn-1 / mn windows, the only place where min_dur is visible when max_silence is large."""
     if mode == 8:
         return [False] + [True] * (mn - 1), 0
-    if mode == 9:
+    if mode in (9, 10):
         return [False] + [True] * mn, 0
     return probe_flags(mn, mx, ms), mode
 
@@ -336,13 +370,15 @@ def c06_observe(min_dur, max_dur, max_silence, w_arg, rate, use_reader, mn, mx, 
     bs = int(w_arg * rate)
     f, tmode = probe_for(mn, mx, ms, mode)
     data = b"".join((b"\x01" if v else b"\x00") * bs for v in f)
+    if mode == 10 and bs > 1:
+        data = data[: len(data) - bs + 1]  # the stream ends one sample into the burst's last window
     kw = dict(min_dur=min_dur, max_dur=max_dur, max_silence=max_silence, validator=FirstByte(),
               drop_trailing_silence=bool(tmode & 4))
     if use_reader:
         rd = L["util"].AudioReader(data, block_dur=w_arg, sr=rate, sw=1, ch=1)
         regs = list(L["core"].split(rd, **kw))
     else:
-        regs = list(L["core"].split(data, sr=rate, sw=1, ch=1, analysis_window=w_arg, **kw))
+        regs = c06_split(data, rate, w_arg, kw, c06_variant(min_dur, max_dur, max_silence, mode))
     out = []
     for r in regs:
         s = round(r.start * rate)
@@ -410,7 +446,7 @@ def c06_work(task):
                         if use_reader:
                             list(L["core"].split(L["util"].AudioReader(data, block_dur=w_f, sr=rate, sw=1, ch=1), **kw))
                         else:
-                            list(L["core"].split(data, sr=rate, sw=1, ch=1, analysis_window=w_f, **kw))
+                            c06_split(data, rate, w_f, kw, c06_variant(mind, maxd, sil))
                     msg = "accepted; the statement requires ValueError (windows: min %r, max %r, silence %r)" % (mn, mx, ms)
                 else:
                     msg = None
@@ -742,7 +778,7 @@ def split_laziness(rep, L):
 # C09
 
 
-from .chk_sources import FakeStdin  # noqa: E402  (BytesIO, or a BufferedReader over a short-reading raw stream)
+from .chk_sources import FakeStdin, PipeStdin  # noqa: E402  (BytesIO, or a BufferedReader over a short-reading raw stream)
 
 
 def regions_sig(regs, rate):
@@ -834,16 +870,19 @@ def c09_work(task):
                     return core.split(util.AudioReader(wavf, block_dur=aw, large_file=True), eth=eth, uc=uc, **base_kw)
                 if kind.startswith("stdin"):
                     old = sys.stdin
-                    sys.stdin = FakeStdin(data, [int(x) for x in kind.split(":")[1].split(",")] if ":" in kind else None)
+                    chunks = [int(x) for x in kind.split(":")[1].split(",")] if ":" in kind else None
+                    sys.stdin = PipeStdin(data, chunks) if kind.startswith("stdin_fd") else FakeStdin(data, chunks)
                     try:
                         return list(core.split("-", **base_kw, **long_kw, **ap))
                     finally:
+                        if kind.startswith("stdin_fd"):
+                            sys.stdin.close()
                         sys.stdin = old
                 raise ValueError(kind)
 
             for kind in ("bytes", "region", "region_fn", "wav", "wav_path", "wav_lazy", "raw", "raw_lazy", "raw_fmt",
                          "raw_audio_format", "buffer_source", "raw_source", "wave_source", "reader", "reader_wav", "stdin", "stdin:1", "stdin:3",
-                         "WAV", "WAV_lazy", "Wave", "RAW", "RAW_lazy",
+                         "WAV", "WAV_lazy", "Wave", "RAW", "RAW_lazy", "stdin_fd:%d,3" % (W * sw * ch - 1),
                          "stdin:%d,2" % (W * sw * ch - 1)):
                 cov["evaluations"] += 1
                 try:
@@ -1202,7 +1241,7 @@ def c06_single(w_s, rate, mind, maxd, sil, use_reader):
             if use_reader:
                 list(L["core"].split(L["util"].AudioReader(data, block_dur=w_f, sr=rate, sw=1, ch=1), **kw))
             else:
-                list(L["core"].split(data, sr=rate, sw=1, ch=1, analysis_window=w_f, **kw))
+                c06_split(data, rate, w_f, kw, c06_variant(mind, maxd, sil))
             return "accepted; the statement requires ValueError"
         for mode in PROBE_MODES:
             got = c06_observe(float(mind), float(maxd), float(sil), w_f, rate, use_reader, mn, mx, ms, mode)
